@@ -451,4 +451,29 @@ impl Sess {
     }
 }
 
+impl Sess {
+    /// The predicates of `raw::Fst`, whose argument streams carry values.
+    pub fn pred_raw(&mut self, p: &str, f: usize, other: &[Kv], other_kind: &InKind) {
+        let om = self.model(other);
+        let bytes = self.fsts[f - 1].0.clone();
+        let ob = build_bytes(other);
+        let r = guard(|| {
+            let a = fst::raw::Fst::new(&bytes[..]).unwrap();
+            let o = fst::raw::Fst::new(&ob[..]).unwrap();
+            match (p, other_kind) {
+                ("is_disjoint", InKind::User) => a.is_disjoint(VecStream { items: other.to_vec(), i: 0 }),
+                ("is_disjoint", _) => a.is_disjoint(&o),
+                ("is_subset", InKind::User) => a.is_subset(VecStream { items: other.to_vec(), i: 0 }),
+                ("is_subset", _) => a.is_subset(&o),
+                ("is_superset", InKind::User) => a.is_superset(VecStream { items: other.to_vec(), i: 0 }),
+                (_, _) => a.is_superset(&o),
+            }
+        });
+        match r {
+            Ok(v) => self.log.ev(json!({"ev": "Pred", "p": p, "f": f, "other": om, "res": v, "level": "raw"})),
+            Err(m) => self.panic_ev("Pred", &m),
+        }
+    }
+}
+
 pub fn _unused(_: Output) {}
